@@ -26,6 +26,7 @@ class Ctx:
         self.explanation = ""
         self._bodies = {}
         self.skipped_cfgs = []
+        self.cfg_tag = None  # set by modules that loop over configurations without tagging their instances themselves
 
     # ---- facts ----------------------------------------------------------------------------------
     def facts(self, cfg="tokio"):
@@ -50,10 +51,17 @@ class Ctx:
         return self._bodies[key]
 
     # ---- results --------------------------------------------------------------------------------
+    def _tag(self, instance):
+        if self.cfg_tag and self.cfg_tag != "tokio" and not instance.endswith("@" + self.cfg_tag):
+            return instance + "@" + self.cfg_tag
+        return instance
+
     def ok(self, rule, instance, site=None, detail=None):
+        instance = self._tag(instance)
         self.instances.append({"rule": rule, "instance": instance, "ok": True, "site": site, "detail": detail})
 
     def viol(self, rule, instance, msg, fn=None, site=None, trace=None):
+        instance = self._tag(instance)
         key = "%s/%s/%s" % (self.prop, rule, instance)
         self.instances.append({"rule": rule, "instance": instance, "ok": False, "site": site, "detail": msg})
         if any(v["key"] == key for v in self.violations):
